@@ -279,6 +279,41 @@ def first_key_brackets(docs, sort):
         return {}, set()
 
 
+def ref_sorted(docs, spec):
+    """`docs` (given in natural order) in the order the sort specification `spec` asks for: the
+    documents are ordered by the reference order of their keys, key by key (a descending key
+    reverses the order of THAT key only), and documents that tie on every key keep their relative
+    natural order.  `$natural` alone, or as the LAST key, stands for the position in natural order
+    (the least significant key: what is equal on all keys before it comes in natural, or reverse
+    natural, order).  `$natural` FOLLOWED by further keys: no claim (MongoDB refuses `$natural`
+    inside a compound sort; the library reads it there as "turn round what the later keys gave",
+    which the model follows); any other `$` key: no claim."""
+    import functools
+    if not spec:
+        return list(docs)
+    if any(k == '$natural' for k, _ in spec[:-1]):
+        raise Outside('natural-before-other-keys')
+    keyed = []
+    for pos, d in enumerate(docs):
+        ks = []
+        for k, direction in spec:
+            if k == '$natural':
+                ks.append(pos)
+            elif k.startswith('$'):
+                raise Outside('dollarkey')
+            else:
+                ks.append(ref_key(d, k, direction < 0))
+        keyed.append((ks, pos, d))
+
+    def cmp(a, b):
+        for ka, kb, (k, direction) in zip(a[0], b[0], spec):
+            c = _three(ka, kb) if k == '$natural' else key_cmp(ka, kb)
+            if c:
+                return -c if direction < 0 else c
+        return _three(a[1], b[1])
+    return [d for _, _, d in sorted(keyed, key=functools.cmp_to_key(cmp))]
+
+
 # ------------------------------------------------------------------------------------------
 # JSON codec for replays and witnesses (values the wire to the model cannot carry)
 
